@@ -204,7 +204,7 @@ def M_(m, w, d, t=None):
     return ("M", m, w, d, t)
 
 
-def specs(tier):
+def specs(tier, own=False):
     us = dict(std="EST", stdoff=-5 * 3600, dst="EDT", dstoff=None)
     au = dict(std="AEST", stdoff=10 * 3600, dst="AEDT", dstoff=None)
     out = []
@@ -231,6 +231,7 @@ def specs(tier):
         add(au, ("J", 280, 2 * 3600), ("J", 95, 3 * 3600))
         add(us, ("N", 100, 5 * 3600), ("N", 280, 5 * 3600))
         add(dict(std="WET", stdoff=0, dst="WEST", dstoff=None), M_(3, 5, 0, 3600), M_(10, 5, 0, 2 * 3600))
+    if tier == "thorough" or own:     # rule times with a seconds part (h:mm:ss); quick tier: C08's own cells only
         add(us, M_(3, 2, 0, 3 * 3600 + 15 * 60 + 30), M_(11, 1, 0, 3600 + 59))
     # rule forms expected to expose the known tzstr defects (end time smaller than the saving; 24:00)
     add(dict(std="CET", stdoff=3600, dst="CEST", dstoff=None), M_(3, 5, 0, 3600), M_(10, 5, 0, 0))
@@ -242,7 +243,7 @@ def cells(tier):
     q = tier == "quick"
     cs = [Cell("harness.c08", "h_malformed", {}, budget_s=150)]
     years = (2024,) if q else (2024, 2023, 2000, 1999, 2100, 2037)
-    for si, spec in enumerate(specs(tier)):
+    for si, spec in enumerate(specs(tier, own=True)):
         for kind in ("tzstr", "tzrange", "tzlocal"):
             if kind == "tzstr" and spec.get("no_tzstr"):
                 continue
